@@ -83,6 +83,23 @@ def java_tlc(args, env=None, timeout=1800, xmx='3g', cwd=None):
     return p.returncode, p.stdout.decode('utf-8', 'replace')
 
 
+def java_tlc_to_file(args, outpath, env=None, timeout=1800, xmx='3g', cwd=None):
+    """TLC with its output in a file (the stimulus-emitting instances print hundreds of megabytes); returns
+    (return code, the last 64 KB of the output)."""
+    cmd = ['java', '-XX:+UseSerialGC', '-Xss16m', '-Xmx' + xmx, '-cp', TLA_CP, 'tlc2.TLC', '-noGenerateSpecTE'] + args
+    e = dict(os.environ)
+    if env:
+        e.update(env)
+    with open(outpath, 'wb') as f:
+        p = subprocess.run(cmd, stdout=f, stderr=subprocess.STDOUT, env=e, timeout=timeout, cwd=cwd)
+    with open(outpath, 'rb') as f:
+        f.seek(0, 2)
+        n = f.tell()
+        f.seek(max(0, n - 65536))
+        tail = f.read().decode('utf-8', 'replace')
+    return p.returncode, tail
+
+
 # ----------------------------------------------------------------------------------------------
 # 1. stimuli from TLC
 # ----------------------------------------------------------------------------------------------
@@ -149,27 +166,30 @@ def _tlc_stimuli_impl(module, cfgtext, descr):
         cfgp = os.path.join(d, 'MC.cfg')
         open(cfgp, 'w').write(cfgtext)
         t0 = time.time()
-        rc, out = java_tlc(['-workers', '1', '-metadir', os.path.join(d, 'md'), '-config', cfgp,
-                            os.path.join(SPEC, module + '.tla')], timeout=7200, xmx='6g')
+        outp = os.path.join(d, 'tlc.out')
+        rc, out = java_tlc_to_file(['-workers', '1', '-metadir', os.path.join(d, 'md'), '-config', cfgp,
+                                    os.path.join(SPEC, module + '.tla')], outp, timeout=7200, xmx='6g')
         shutil.rmtree(os.path.join(d, 'md'), ignore_errors=True)
         ok = 'Model checking completed. No error has been found.' in out
-        m = re.search(r'(\d+) states generated, (\d+) distinct states found', out)
+        ms = re.findall(r'(\d+) states generated, (\d+) distinct states found', out)
+        m = ms[-1] if ms else None
         if not ok or not m:
-            open(os.path.join(d, 'tlc.out'), 'w').write(out)
-            raise RuntimeError('TLC failed on %s %s (see %s/tlc.out):\n%s' % (module, descr, d, out[-3000:]))
+            raise RuntimeError('TLC failed on %s %s (see %s):\n%s' % (module, descr, outp, out[-3000:]))
         stim = os.path.join(d, 'stimuli.txt')
         n = 0
         seen = set()
-        with open(stim, 'w') as f:
-            for v in tlaparse.values(out, 'S'):
+        with open(stim, 'w') as f, open(outp, errors='replace') as fin:
+            for v in tlaparse.values_stream(fin, 'S'):
                 ops = v[1] + [v[2]]
                 body = ' ; '.join(fmt_op(o) for o in ops)
-                if body in seen:
+                hb = hash(body)
+                if hb in seen:
                     continue
-                seen.add(body)
+                seen.add(hb)
                 f.write('S m%d 0 | %s\n' % (n, body))
                 n += 1
-        res = dict(path=stim, generated=max(int(m.group(1)), n), distinct=int(m.group(2)), n=n, wall=time.time() - t0,
+        os.remove(outp)
+        res = dict(path=stim, generated=max(int(m[0]), n), distinct=int(m[1]), n=n, wall=time.time() - t0,
                    consts=descr, key=key)
         json.dump(res, open(meta, 'w'))
         return res
@@ -201,23 +221,26 @@ def _gen_stimuli_sim_impl(consts, num, depth, seed):
         cfgp = os.path.join(d, 'MC.cfg')
         open(cfgp, 'w').write(cfgtext)
         t0 = time.time()
-        rc, out = java_tlc(['-simulate', 'num=%d' % num, '-depth', str(depth), '-seed', str(seed + 1), '-workers', '1', '-metadir', os.path.join(d, 'md'),
-                            '-config', cfgp, os.path.join(SPEC, 'SVecMC.tla')], timeout=3600, xmx='4g')
+        outp = os.path.join(d, 'tlc.out')
+        rc, out = java_tlc_to_file(['-simulate', 'num=%d' % num, '-depth', str(depth), '-seed', str(seed + 1), '-workers', '1', '-metadir', os.path.join(d, 'md'),
+                                    '-config', cfgp, os.path.join(SPEC, 'SVecMC.tla')], outp, timeout=3600, xmx='4g')
         shutil.rmtree(os.path.join(d, 'md'), ignore_errors=True)
-        if 'violates the contract' in out or 'Invariant' in out and 'is violated' in out:
-            open(os.path.join(d, 'tlc.out'), 'w').write(out)
-            raise RuntimeError('TLC simulation found a design-level violation (see %s/tlc.out):\n%s' % (d, out[-2500:]))
+        if 'violates the contract' in out or 'Invariant' in out and 'is violated' in out or 'evaluated to FALSE' in out:
+            raise RuntimeError('TLC simulation found a design-level violation (see %s):\n%s' % (outp, out[-2500:]))
         # TLC evaluates every enabled call at every step of a behaviour and then follows one of them: the "S" lines
         # whose history has the maximal length are the candidates for the LAST step of each behaviour
         byhist = {}
         maxlen = 0
-        for v in tlaparse.values(out, 'S'):
+        fin = open(outp, errors='replace')
+        for v in tlaparse.values_stream(fin, 'S'):
             n = len(v[1])
             if n < maxlen:
                 continue
             if n > maxlen:
                 maxlen, byhist = n, {}
             byhist.setdefault(' ; '.join(fmt_op(o) for o in v[1]), []).append(fmt_op(v[2]))
+        fin.close()
+        os.remove(outp)
         rnd = __import__('random').Random(seed)
         bodies = []
         for h in sorted(byhist):
